@@ -107,6 +107,11 @@ def run_case(rnd, cs, job, acc):
     for i, t in enumerate(m["tasks"]):
         if rnd.random() < 0.3:
             t["name"] = rnd.choice(["Design phase", "Écriture", "a, b; c", "x 'quoted'", "tab\there", "  padded "]) + str(i)
+    if rnd.random() < 0.35:
+        # local ids reused in different containers and at root level, prefix ids, keyword-like ids (seeded change C18-a:
+        # anything keyed by the local id instead of the full id collides)
+        from .meta import rename_model
+        m, _ = rename_model(rnd, m)
     project_tf = rnd.choice([None, None, "%Y-%m-%d %H:%M", "%d/%m/%Y"])
     if project_tf:
         m["timeformat"] = project_tf
